@@ -419,7 +419,9 @@ def in_child(fn):
 
 
 def key_of(call):
-    return json.dumps(call, sort_keys=True)
+    # order-preserving: the order of a dict's keys is part of the call (the serialiser writes them in
+    # that order, and an error message quotes a column of that text)
+    return json.dumps(call)
 
 
 def fnv(text):
